@@ -63,6 +63,7 @@ def configs(tier):
         {'names': 'ks', 'raw': True, 'ncd': 4, 'optional': {'raw': 'yes'}, 'sym': ['spikes'], 'colvec': True},
         {'names': 'ks', 'nan': 'amplitudes', 'optional': {'spike_clusters': 'no'}, 'sym': ['spikes', 'templates']},
         {'names': 'ks', 'nan': 'template', 'tpl_dtype': 'float64', 'sym': ['spikes']},
+        {'names': 'ks', 'nan': 'amplitudes', 'amp_dtype': 'float32', 'sym': ['ids'], 'optional': {'pc_features': 'no'}},
         {'names': 'ks', 'sparse': True, 'optional': {'whitening_mat': 'no'}, 'sym': ['spikes', 'templates']},
         {'names': 'ks', 'allow_unsorted': True, 'optional': {'amplitudes': 'no'}, 'sym': ['spikes']},
         {'names': 'ks', 'id_dtype': 'uint16', 'sym': ['ids', 'channels']},
@@ -202,6 +203,17 @@ def run_config(cfg, e):
                         if False else implies(same, SymBool(m.sparse_clusters is m.sparse_templates)),
                         'identical assignments must share the template waveforms'))
             obl.append((implies(snot(same), m.n_clusters == mx + 1), 'n_clusters after curation'))
+            if not bool(same):
+                # curated: every cluster id maps to the templates its spikes came from
+                obl.append((m.sparse_clusters is not m.sparse_templates, 'curated dataset treated as uncurated'))
+                mm = m.merge_map
+                ncl_ = core.eng().concretize(core.term_of(mx)) + 1
+                obl.append((sorted(int(k) for k in mm.keys()) == list(range(ncl_)), 'merge_map keys after loading'))
+                for cl in range(ncl_):
+                    lst = [int(v) for v in mm.get(cl, [])]
+                    for t in range(T):
+                        has = sor(*[sand(ds.sc[p_] == cl, ds.st[p_] == t) for p_ in range(ns)])
+                        obl.append((has if t in lst else snot(has), 'merge_map[%d] after loading' % cl))
         else:
             obl.append((m.sparse_clusters is m.sparse_templates, 'uncurated dataset: cluster waveforms are the template waveforms'))
             obl.append((m.n_clusters == T, 'uncurated dataset: as many clusters as templates'))
@@ -299,6 +311,13 @@ def replay(case):
                 return 'amplitudes should be None'
             if [int(v) for v in m.channel_mapping] != case['cm']:
                 return 'channel_mapping'
+            if wsc != case['st']:
+                if m.sparse_clusters is m.sparse_templates:
+                    return 'curated dataset (clusters %s, templates %s) treated as uncurated' % (wsc, case['st'])
+                for cl in range(max(wsc) + 1):
+                    want_t = sorted({case['st'][i] for i in range(ns) if wsc[i] == cl})
+                    if sorted(int(v) for v in m.merge_map.get(cl, [])) != want_t:
+                        return 'merge_map[%d] = %s after loading, expected %s' % (cl, list(m.merge_map.get(cl, [])), want_t)
             tw = rd.tpl_file.copy()
             if cfg.get('nan') == 'template':
                 tw[0] = 0
